@@ -114,7 +114,8 @@ def gen_number(rng):
     if rng.random() < 0.7:
         s += "." + "".join(rng.choice("0123456789") for _ in range(rng.randrange(1, 12)))
     if rng.random() < 0.5:
-        s += rng.choice("eE") + rng.choice(["", "+", "-"]) + str(rng.randrange(0, rng.choice([3, 30, 300])))
+        pad = "0" * rng.choice([0, 0, 0, 0, 1, 8, 9, 10, 12])     # exponent digits with leading zeros (value stays small)
+        s += rng.choice("eE") + rng.choice(["", "+", "-"]) + pad + str(rng.randrange(0, rng.choice([3, 30, 300])))
     return s
 
 
